@@ -287,8 +287,15 @@ fn stream(name: &'static str, f: crate::run::TapeFn, q: u64, th: u64) -> Stream 
     }
 }
 
+/// Raw text carried by the tape bytes (libFuzzer campaigns only; no proptest cases).
+fn s_fuzztext(t: &mut Tape, ctx: &mut Ctx) -> Result<(), Failure> {
+    let s = crate::fuzzglue::text_of_tape(t);
+    feed_all(t, &s, ctx, "fuzztext", true)
+}
+
 pub fn streams() -> Vec<Stream> {
     vec![
+        Stream { name: "fuzztext", kind: Kind::Tape { cases: |_| 0, max_len: 4096, f: s_fuzztext }, isolate: true },
         stream("program", s_program, 0, 0),
         stream("module", s_module, 0, 0),
         stream("json", s_json, 0, 0),
